@@ -94,9 +94,7 @@ def _summarise(interp, st, frame, seq):
         flat = _flatten(interp, st, inner, frame, seq)
         if flat is not None:
             bind, total, body = flat[:3]
-        else:
-            raise NotSummarisable()
-    else:
+    if flat is None:
         def bind(fr, p, st=st, seq=seq):
             interp.assign(st.target, vget(ctx, seq, p), fr)
         total = seq.length
